@@ -257,6 +257,7 @@ func (e *Exec) runnable(th *Thread) bool {
 // reaches a sync point.
 func (e *Exec) runThread(th *Thread) {
 	e.cur = th
+	e.lastRun = th
 	if th.blocked {
 		th.blocked = false
 		th.wake = nil
@@ -413,58 +414,64 @@ func (e *Exec) advanceTime() bool {
 // ---------------------------------------------------------------------------
 // scheduler main loop
 
-func (e *Exec) pickThread() *Thread {
+// pickNext chooses the next thread to run among the runnable ones (except
+// exclude). In schedule mode the choice is a decision: continuing the thread
+// that ran last is free, switching away from it while it could continue
+// costs one preemption (bounded); when it blocked or finished any choice is free.
+func (e *Exec) pickNext(exclude *Thread) *Thread {
 	var rs []*Thread
 	for _, th := range e.threads {
-		if e.runnable(th) {
+		if th != exclude && e.runnable(th) {
 			rs = append(rs, th)
 		}
 	}
 	if len(rs) == 0 {
 		return nil
 	}
+	last := e.lastRun
+	lastRunnable := false
+	for _, th := range rs {
+		if th == last {
+			lastRunnable = true
+		}
+	}
 	if !e.opts.Schedule {
-		if e.cur != nil && e.cur.id >= 0 && e.runnable(e.cur) {
-			return e.cur
+		if lastRunnable {
+			return last
 		}
 		return rs[0]
 	}
-	// schedule mode: current first (no preemption), others cost a preemption
-	// when the current thread could have continued.
 	var order []*Thread
-	curRunnable := false
-	if e.cur != nil && e.cur.id >= 0 && e.runnable(e.cur) {
-		order = append(order, e.cur)
-		curRunnable = true
-	}
-	for _, th := range rs {
-		if th != e.cur || !curRunnable {
-			if !(curRunnable && th == e.cur) {
-				order = append(order, th)
+	if lastRunnable {
+		order = append(order, last)
+		if e.preempts < e.opts.Preemptions {
+			for _, th := range rs {
+				if th != last {
+					order = append(order, th)
+				}
 			}
 		}
+	} else {
+		order = rs
 	}
-	if curRunnable && e.preempts >= e.opts.Preemptions {
-		order = order[:1]
-	}
-	if len(order) == 1 {
-		order[0].skipYield = order[0].yielded
-		order[0].yielded = false
-		return order[0]
-	}
-	alts := make([]*Term, len(order))
-	for i := range alts {
-		alts[i] = e.ctx.True
-	}
-	i := e.choose("sched", alts)
-	if curRunnable && i > 0 {
-		e.preempts++
+	i := 0
+	if len(order) > 1 {
+		alts := make([]*Term, len(order))
+		for k := range alts {
+			alts[k] = e.ctx.True
+		}
+		i = e.choose("sched", alts)
+		if lastRunnable && i > 0 {
+			e.preempts++
+		}
 	}
 	th := order[i]
 	th.skipYield = th.yielded
 	th.yielded = false
 	return th
 }
+
+func (e *Exec) pickThread() *Thread { return e.pickNext(nil) }
 
 // runAll runs until the main thread finishes (returns true) or nothing can
 // progress (returns false: deadlock).
@@ -488,30 +495,8 @@ func (e *Exec) runAll(main *Thread) bool {
 func (e *Exec) quiesce(main *Thread) int {
 	saved := e.cur
 	for {
-		var th *Thread
-		var rs []*Thread
-		for _, t := range e.threads {
-			if t != main && e.runnable(t) {
-				rs = append(rs, t)
-			}
-		}
-		if len(rs) > 0 {
-			th = rs[0]
-			if e.opts.Schedule && len(rs) > 1 {
-				alts := make([]*Term, len(rs))
-				for i := range alts {
-					alts[i] = e.ctx.True
-				}
-				if e.preempts < e.opts.Preemptions {
-					i := e.choose("sched-q", alts)
-					if i > 0 {
-						e.preempts++
-					}
-					th = rs[i]
-				}
-			}
-			th.skipYield = true
-			th.yielded = false
+		th := e.pickNext(main)
+		if th != nil {
 			e.runThread(th)
 			continue
 		}
